@@ -211,12 +211,20 @@ class Check(PropertyCheck):
     def generate(self, rng, tier):
         for p in self._dumps():
             yield {"kind": "dump", "file": os.path.relpath(p, REPO)}
+        # shipped historical records with single fields edited to values whose meaning in the current format is known
+        for p in self._dumps():
+            for edit in DUMP_EDITS:
+                yield {"kind": "dumpmut", "file": os.path.relpath(p, REPO), "edit": edit, "n": 1}
         for v in [22, 23, 100, 2 ** 40, 0, -1, 3, [0, 10], [0, 20], [3, 1], [4, 0], [1, 1], [21, 0]]:
             yield {"kind": "future", "version": v}
         while True:
             r = rng.random()
             st = self._rand_flow_state(rng)
-            if r < 0.25:
+            if r < 0.12:
+                dumps = self._dumps()
+                yield {"kind": "dumpmut", "file": os.path.relpath(rng.choice(dumps), REPO), "edit": rng.choice(DUMP_EDITS),
+                       "n": rng.randint(2, 10 ** 6)}
+            elif r < 0.3:
                 yield {"kind": "current", "state": canon_in(st)}
             elif r < 0.9:
                 c = {"kind": "downgrade", "to": rng.randint(MIN_SYNTH, 20), "state": canon_in(st)}
@@ -252,6 +260,29 @@ class Check(PropertyCheck):
                     "versions": sorted({s["version"] for s in states}),
                     "resave_equal": canon(states) == canon(again),
                     "digest": digest(_strip_volatile(states))}
+        if k == "dumpmut":
+            path = os.path.join(REPO, case["file"])
+            rec = tnetstring.load(open(path, "rb"))
+            fv = rec.get(b"version", rec.get("version"))
+            fv = fv if isinstance(fv, int) else tuple(fv)[:2]
+            if not (fv in compat.converters or fv == version.FLOW_FORMAT_VERSION): raise Skip()
+            want = apply_dump_edit(rec, case["edit"], case["n"])
+            if want is None: raise Skip()
+            try:
+                flows = list(mio.FlowReader(_io.BytesIO(tnetstring.dumps(rec))).stream())
+            except exceptions.FlowReadException as e:
+                return {"error": str(e)[:200], "want": want}
+            if len(flows) != 1: return {"error": "count=%d" % len(flows), "want": want}
+            f = flows[0]
+            got = read_back(f, case["edit"])
+            resave = "ok"
+            try:
+                b2 = _io.BytesIO(); mio.FlowWriter(b2).add(f); b2.seek(0)
+                again = [g.get_state() for g in mio.FlowReader(b2).stream()]
+                if canon(again) != canon([f.get_state()]): resave = "differs"
+            except Exception as e:
+                resave = f"{type(e).__name__}: {e}"[:160]
+            return {"want": want, "got": got, "resave": resave}
         if k == "current":
             st = canon_out(case["state"])
             out = compat.migrate_flow(copy.deepcopy(st))
@@ -325,6 +356,12 @@ class Check(PropertyCheck):
             if obs["n"] == 0: fails.append(f"{case['file']}: no flows loaded")
             if obs["versions"] != [cur]: fails.append(f"{case['file']}: loaded flows report versions {obs['versions']}")
             if not obs["resave_equal"]: fails.append(f"{case['file']}: re-save + re-load changes the state")
+        elif k == "dumpmut":
+            # "Every flow file written by a supported older mitmproxy version … loads into valid current flows" — with the
+            # edited field carrying the meaning it had in the old format; "re-saving … reproduces the same state"
+            if "error" in obs: fails.append(f"{case['file']} with {case['edit']} edited does not load: {obs['error']}")
+            elif obs["got"] != obs["want"]: fails.append(f"{case['file']}: old field {case['edit']} = {obs['want']!r} loads as {obs['got']!r}")
+            elif obs["resave"] != "ok": fails.append(f"{case['file']} with {case['edit']} edited cannot be re-saved/re-loaded to the same state: {obs['resave']}")
         elif k == "current":
             # "current-format flow states pass through migration unchanged"
             if not obs["unchanged"]: fails.append("current-format state changed by migrate_flow")
@@ -379,10 +416,12 @@ class Check(PropertyCheck):
 
     def classify(self, case, obs):
         if case["kind"] == "dump": return ("dump", case["file"])
+        if case["kind"] == "dumpmut": return ("dumpmut", case["file"], case["edit"], case["n"])
         if case["kind"] == "future": return ("future", str(case["version"]))
         return (case["kind"], case.get("to"), digest(case["state"]))
 
     def branches(self, case, obs):
+        if case["kind"] == "dumpmut": return ["dumpmut:" + case["edit"]]
         return [case["kind"] + (":v%d" % case["to"] if case["kind"] == "downgrade" else "")]
 
     def describe(self, case, obs):
@@ -401,6 +440,87 @@ class Check(PropertyCheck):
         for a in range(0, 5):
             for b in range(0, 25):
                 yield {"kind": "future", "version": [a, b]}
+
+
+DUMP_EDITS = ["error", "req_content", "resp_content", "status", "host", "port", "path", "req_header", "resp_reason"]
+
+
+def _k(d, name):
+    """the key under which `name` is stored in an old-format dict (py2-era dumps use byte-string keys)"""
+    if name in d: return name
+    b = name.encode()
+    return b if b in d else None
+
+
+def _like(sample, text):
+    return text.encode() if isinstance(sample, bytes) else text
+
+
+def apply_dump_edit(rec, edit, n):
+    """edit ONE field of a historical record in place; return the value the loaded current flow must show"""
+    bkeys = any(isinstance(k, bytes) for k in rec)
+    K = (lambda s: s.encode()) if bkeys else (lambda s: s)
+    req = rec.get(K("request")); resp = rec.get(K("response"))
+    if edit == "error":
+        rec[K("error")] = {K("msg"): ("boom-%d" % n).encode() if bkeys else "boom-%d" % n, K("timestamp"): 12.5}
+        return ["boom-%d" % n, 12.5]
+    if edit == "req_content" and req is not None:
+        k = _k(req, "content") or _k(req, "body")
+        if k is None: return None
+        req[k] = b"body-%d\x00\xff" % n
+        hk = _k(req, "headers")
+        return (b"body-%d\x00\xff" % n).hex()
+    if edit == "resp_content" and resp:
+        k = _k(resp, "content") or _k(resp, "body")
+        if k is None: return None
+        resp[k] = b"resp-%d\x80" % n
+        return (b"resp-%d\x80" % n).hex()
+    if edit == "status" and resp:
+        k = _k(resp, "status_code") or _k(resp, "code")
+        if k is None: return None
+        resp[k] = 200 + n % 300
+        return 200 + n % 300
+    if edit == "host" and req is not None:
+        k = _k(req, "host")
+        if k is None: return None
+        req[k] = _like(req[k], "h%d.example" % n) if req[k] is not None else b"h%d.example" % n
+        return "h%d.example" % n
+    if edit == "port" and req is not None:
+        k = _k(req, "port")
+        if k is None: return None
+        req[k] = 1 + n % 65000
+        return 1 + n % 65000
+    if edit == "path" and req is not None:
+        k = _k(req, "path")
+        if k is None: return None
+        req[k] = _like(req[k], "/p%d?q=1" % n)
+        return "/p%d?q=1" % n
+    if edit == "req_header" and req is not None:
+        k = _k(req, "headers")
+        if k is None: return None
+        req[k] = list(req[k]) + [[b"x-old-%d" % (n % 7), b"v-%d" % n]]
+        return (b"v-%d" % n).hex()
+    if edit == "resp_reason" and resp:
+        k = _k(resp, "reason") or _k(resp, "msg")
+        if k is None: return None
+        resp[k] = _like(resp[k], "Reason %d" % n) if resp[k] is not None else b"Reason %d" % n
+        return "Reason %d" % n
+    return None
+
+
+def read_back(f, edit):
+    if edit == "error": return [f.error.msg, f.error.timestamp] if f.error else None
+    if edit == "req_content": return f.request.raw_content.hex() if f.request.raw_content is not None else None
+    if edit == "resp_content": return f.response.raw_content.hex() if f.response and f.response.raw_content is not None else None
+    if edit == "status": return f.response.status_code if f.response else None
+    if edit == "host": return f.request.host
+    if edit == "port": return f.request.port
+    if edit == "path": return f.request.path
+    if edit == "req_header":
+        vals = [v for k, v in f.request.headers.fields if k.startswith(b"x-old-")]
+        return vals[-1].hex() if vals else None
+    if edit == "resp_reason": return f.response.reason if f.response else None
+    return None
 
 
 def _strip_volatile(states):
